@@ -38,6 +38,10 @@ def scenarios(quick):
                     out.append(scenario(st, fns, extra + [start(1, 0, asyn), env("CtxCancel", t, 1)]))
                 for gap in (0, 1, 2):
                     out.append(scenario(st, fns, extra + [start(1, 0, True), env("AsyncCancel", t, 1, gap=gap)]))
+                if t == 0 and any(d["k"] == "bh" for d in st):
+                    out.append(scenario(st, fns, extra + [dict(start(1, 0, False), id="precanceled")]))
+                    out.append(scenario([bh("b", 1), retry(1, dly=1)], fns, [env("BhTake", 0, id="b"), dict(start(1, 0, True), id="precanceled")]))
+                    out.append(scenario([bh("b", 1), retry(1, dly=1)], fns, [env("BhTake", 0, id="b"), start(1, 0, False, dl=0)]))
                 # the caller's context reaches its deadline (a timer of the runtime; reported as context.DeadlineExceeded)
                 if t >= 1 and (t % 2 == 1 or not quick):
                     out.append(scenario(st, fns, extra + [start(1, 0, t % 4 == 3), env("CtxDeadline", t, 1)]))
